@@ -21,8 +21,8 @@ var serialiseCoveredBy = map[string][]string{
 	"jsight-schema-core.(Schema).GetAST":                            {"jsight-schema-core.(Schema).Check", "(*jsight-schema-core/notations/jschema.JSchema).Compile"},
 	"(*jsight-schema-core/notations/jschema.JSchema).UsedUserTypes": {"(*jsight-schema-core/notations/jschema.JSchema).Compile", "jsight-schema-core.(Schema).Check"},
 	"(*jsight-schema-core/notations/jschema.JSchema).Compile":       {"jsight-schema-core.(Schema).Check"},
-	// the example of a regular expression is tried by catalog.CheckRegexExample on a scratch schema (C04-REGEX-EXAMPLE-PROBED)
-	"(*jsight-schema-core/notations/regex.RSchema).Example": {"probe:catalog.CheckRegexExample"},
+	// (the example of a regular expression is tried by catalog.CheckRegexExample on a scratch schema - the first
+	// example only; the generator is stateful, so the probe does not cover the serialiser's call: see below, F60)
 	"(*jsight-schema-core/notations/regex.RSchema).Pattern": {"(*jsight-schema-core/notations/regex.RSchema).Check", "jsight-schema-core.(Schema).Check"},
 	"(*jsight-schema-core/notations/regex.RSchema).GetAST":  {"(*jsight-schema-core/notations/regex.RSchema).Check", "jsight-schema-core.(Schema).Check"},
 }
@@ -80,6 +80,18 @@ func (c *Ctx) ruleSerialiseDepErrors(rule string) {
 	for _, name := range names {
 		n++
 		key := "serialiser calls " + name
+		// a function that advances internal state gives the serialiser another result than the one the build (or a
+		// probe on a scratch copy) saw: a trial of the first example says nothing about the n-th
+		stateful := ""
+		for full, class := range depAPI {
+			if strings.HasPrefix(class, "stateful") && strings.Replace(full, "github.com/jsightapi/", "", 1) == name {
+				stateful = class
+			}
+		}
+		if stateful != "" {
+			r.Bad(rule, key, "the function is "+stateful+"; the call the serialiser makes ("+atSer[name]+") takes another draw than any call or probe of the build, and can fail where those did not: a document builds without an error and ToJson returns the error", "")
+			continue
+		}
 		if where, ok := atBuild[name]; ok {
 			r.Ok(rule, key, "the build calls it too ("+where+")", "")
 			continue
@@ -105,5 +117,91 @@ func (c *Ctx) ruleSerialiseDepErrors(rule string) {
 	}
 	if n < 3 {
 		r.Undecided(rule, "sites", fmt.Sprintf("only %d error-returning calls into the schema library found under the serialisers", n), "")
+	}
+}
+
+// ruleSerialiseStatefulRecovered: the example generator of a regular expression panics on some expressions, and on
+// some only from the second example on (F60): a probe of the first example does not rule it out. Where a serialiser
+// of package catalog takes such an example, the call stands in a function with a deferred recover in front of it,
+// so the failure is an error of ToJson and not a panic out of encoding/json.
+func (c *Ctx) ruleSerialiseStatefulRecovered(rule string) {
+	r := c.R
+	r.Rule(rule, "every call, in package catalog outside the build-time probe, of a dependency function classified stateful (the example generator of a regular expression, which panics on some draws) stands in a function or function literal that has a deferred function literal calling recover() before the call: the failure of a later draw is an error value, not a panic out of the serialisation", 1)
+	pk := c.P.Pkg("catalog")
+	if pk == nil {
+		r.Undecided(rule, "anchor", "package catalog not loaded", "")
+		return
+	}
+	n := 0
+	for _, f := range c.libFns() {
+		if f.Pkg != pk {
+			continue
+		}
+		var stack []ast.Node
+		ast.Inspect(f.Decl, func(nd ast.Node) bool {
+			if nd == nil {
+				stack = stack[:len(stack)-1]
+				return true
+			}
+			stack = append(stack, nd)
+			call, ok := nd.(*ast.CallExpr)
+			if !ok {
+				return true
+			}
+			cal := callee(pk, call)
+			if cal == nil {
+				return true
+			}
+			class, ok := depAPI[cal.FullName()]
+			if !ok || !strings.HasPrefix(class, "stateful") {
+				return true
+			}
+			// the receiver of the probe is a scratch schema made on the spot: not the catalog's generator
+			if sel, ok := call.Fun.(*ast.SelectorExpr); ok {
+				if _, isCall := ast.Unparen(sel.X).(*ast.CallExpr); isCall {
+					return true
+				}
+			}
+			n++
+			var body *ast.BlockStmt
+			for i := len(stack) - 1; i >= 0 && body == nil; i-- {
+				switch x := stack[i].(type) {
+				case *ast.FuncLit:
+					body = x.Body
+				case *ast.FuncDecl:
+					body = x.Body
+				}
+			}
+			key := f.Name() + " | " + cal.Name()
+			rec := false
+			if body != nil {
+				for _, st := range body.List {
+					if st.Pos() > call.Pos() {
+						break
+					}
+					if ds, ok := st.(*ast.DeferStmt); ok {
+						if lit, ok := ds.Call.Fun.(*ast.FuncLit); ok {
+							ast.Inspect(lit.Body, func(m ast.Node) bool {
+								if cc, ok := m.(*ast.CallExpr); ok {
+									if id, ok := cc.Fun.(*ast.Ident); ok && id.Name == "recover" && pk.TypesInfo.Uses[id] == types.Universe.Lookup("recover") {
+										rec = true
+									}
+								}
+								return true
+							})
+						}
+					}
+				}
+			}
+			if rec {
+				r.Ok(rule, key, "the call stands behind a deferred recover of the same function", c.pos(call.Pos()))
+			} else {
+				r.Bad(rule, key, "the example generator can panic on a later draw than the one the build tried, and nothing recovers here: ToJson panics instead of returning", c.pos(call.Pos()))
+			}
+			return true
+		})
+	}
+	if n == 0 {
+		r.Undecided(rule, "sites", "no call of a stateful dependency function found in package catalog ((*ExchangeRegexSchema).Example used to match)", "")
 	}
 }
